@@ -47,6 +47,26 @@ reg("C15",
     outside=_OUT + "; key removal while an error is outstanding; more than two keys",
     )
 
+reg("C15",
+    name="C15_map_beat", src="harness/C15_map_beat.cpp",
+    anchor_files=["src/hgraph/runtime/map_node.cpp", "src/hgraph/runtime/graph.cpp", "src/hgraph/runtime/node.cpp", "src/hgraph/runtime/node_error.cpp"],
+    quick=dict(defs=dict(NBEAT=3, PMAX=2), symx=dict(shards=16, **{"max-wall": 900})),
+    thorough=dict(defs=dict(NBEAT=3, PMAX=3), symx=dict(shards=16, **{"max-wall": 3000, "shard-depth": 8})),
+    reach=["end", "no_throw", "key_child_throws", "both_keys_throw", "self_scheduling_node_itself_throws_after_rearming",
+           "one_key_throw_with_rearmed_wakeup_and_no_other_map_wakeup_before_it",
+           "two_keys_throw_with_rearmed_wakeup_and_no_other_map_wakeup_before_it",
+           "two_keys_different_periods_other_key_beats_only_after_the_rearmed_time",
+           "key_child_normal_evaluation_after_throw", "throw_in_consecutive_beats", "throw_in_first_cycle"],
+    bounds="keyed map with per-key error capture (real wire_map + exception_time_series) whose per-key child is (key, x) -> Beat -> TK: Beat is "
+           "SELF-SCHEDULING (re-arms its NodeScheduler in each of its first NBEAT-1 evaluations, symbolic delta in [1,PMAX]); the keyed source ticks in "
+           "cycle 0 ONLY (enumerated: 1 or 2 keys), so afterwards the map node is woken by the children's own timers only; the child of key k throws in "
+           "a symbolic subset of its NBEAT evaluations (key 1: of its first NBEAT-1), i.e. in a cycle in which Beat has just re-armed; enumerated: the "
+           "thrower is TK (downstream of Beat) or Beat itself (after re-arming); key 0 one symbolic delta per re-arm, key 1 one symbolic period; "
+           "independent source ticks at t0 and t0+symbolic delta; payloads symbolic; faulty run and fault-free twin in one path",
+    outside=_OUT + "; key removal / input ticks while a re-armed wake-up is pending (C15_map_capture has input ticks, no self-scheduling); more than two keys; "
+            "a thrower ordered BEFORE the self-scheduling node in the child graph",
+    )
+
 META = dict(
     level="bounded symbolic relational checking (faulty run vs fault-free twin of the same program on the same symbolic inputs, inside one path) of the real "
           "error-capture code: node.cpp evaluate_impl / write_node_error, try_except_node.cpp, map_node.cpp per-key capture, graph.cpp nested evaluate_impl, "
